@@ -4,10 +4,13 @@ from props import pgen, pstack
 
 ID = 'C09'
 GEN_FILES = ['T_parser', 'T_fmtspaces', 'T_pins_parser', 'T_pins_luawriter', 'T_lexer', 'T_pins_lexer', 'T_luanames', 'T_minifier',
-             'T_minifier_p8', 'T_minwiring_lua', 'T_minwiring_tool', 'T_minwiring_build']
+             'T_minifier_p8', 'T_minwiring_lua', 'T_minwiring_tool', 'T_minwiring_build',
+             # source pins of the hand-modelled modules (gen/kernels_pins.py)
+             'T_pins_tool']
 COQ_PROPERTY = 'theories/Properties/C09.vo'
 COQ_EXTRA = ['theories/Proofs/ParserPins.vo', 'theories/Proofs/AstWriterPins.vo', 'theories/Generated/T_parser_selftest.vo',
-             'theories/Proofs/LexerPins.vo', 'theories/Proofs/LexTokenSame.vo']
+             'theories/Proofs/LexerPins.vo', 'theories/Proofs/LexTokenSame.vo',
+             'theories/Proofs/ToolPins.vo']
 MODEL = ('ExC09', ['lua_io.ml', 'c09_main.ml'])
 MONITOR = ('MonC09', ['lua_io.ml', 'c09_mon_main.ml'])
 CASE_TIMEOUT = 180
